@@ -374,6 +374,12 @@ def check_conditioning(ctx, fi, be):
             '%s&set.union(*[clforclin%sif%sincl])' % (used, cl_t, col)}
     # conditioning on MORE generated columns (all of them) is still exact; fewer is not
     ok = (P.replace(' ', '') in want and cl_t in ('[set(cl)forclinself.cliques]', 'cliques')) or P.replace(' ', '') == used
+    Pn = P.replace(' ', '')
+    if not ok and (Pn.startswith(used + '&') or Pn.startswith(used + '.intersection(')) and 'set.union(' not in Pn:
+        # the generated columns intersected with ONE clique picked by some criterion: whether that clique always contains every generated
+        # neighbour of the column is a property of the junction tree, not of this code's shape
+        raise AnalysisError('synthetic_data: the conditioning set `%s` is the generated columns within one chosen clique; whether that clique '
+                            'covers every generated neighbour of `%s` is neither confirmed nor refuted by this analysis' % (P[:120], col))
     ctx.ob('conditioning', fi, loop, ok,
            'a column is generated conditionally on the already generated columns sharing a model clique with it: expected '
            'tuple(%s & union of the cliques containing %s); conditions on `%s`' % (used, col, P[:160]), construct='conditioning set')
